@@ -21,12 +21,17 @@
   and `c03_down_delivered_prefix` holds at full strength, with no hypothesis about the reply.
 
   Section I is about the clock of the grace period (`TState`, `tstep`, `trun` of `Model/C03.lean`): when
-  the timer is started, when it may and when it must fire, and that it is cancelled.
+  the timer is started, when it may and when it must fire, and that it is cancelled.  Section J is about
+  what `closeWriter` can do to a leg (`Legs`, `hstep`): a half-close is relayed at once where the leg has a
+  `CloseWrite`, only by closing the tunnel where it has none, and in NO case does it disable the opposite
+  direction.  Section K puts the request / dial limits on the clock (`Limits`, `lstep`): none of them is
+  armed on, enables or disables any step of, an established tunnel.
 
   Bytes used in the examples: 72 = 'H' (head), 82 = 'R' (reply head), payload bytes 1 … 9.
 -/
 import FwdVerif.Lemmas.C03
 import FwdVerif.Lemmas.C03Indep
+import FwdVerif.Lemmas.C03Legs
 
 namespace FwdVerif
 namespace C03
@@ -792,6 +797,324 @@ example : ∃ t, trun exCfg exT (exTSteps.take 18) = some t ∧ t.now = 14 ∧ t
     t.s.down.done = false ∧ tstep exCfg exT t (.tick 2) = none ∧
     (tstep exCfg exT t (.tick 1)).isSome = true ∧ (tstep exCfg exT t (.act .graceExpire)).isSome = true :=
   ⟨_, rfl, by decide⟩
+
+/-! ## J. Leg capabilities: a half-close never disables the opposite direction
+
+  `Model/C03.lean` `Legs` / `hstep`: the machine above with what `copier.closeWriter` can do to the
+  destination of the direction that has finished.  `eof d` of the plain machine reads "the copier of `d`
+  returned after reading end-of-stream and called `closeWriter`"; whether the far end of `d` SEES
+  end-of-stream is `shown d`.  Policy `leave` is the code; every theorem quantifies over every
+  capability of both legs. -/
+
+/-- a custom `ConnectFunc` returned a connection without `CloseWrite` anywhere -/
+def exLegs : Legs := { client := .halfClose, target := .none }
+
+/-- the machine with capabilities only adds `shown`: under the code's policy its runs are runs of the
+    plain machine (so sections A–H hold of them), and nothing is ever cut -/
+theorem c03_legs_run_is_plain_run {c : Cfg} {L : Legs} {steps : List Step} {h : HState}
+    (hx : hrun c L .leave steps = some h) : run c steps = some h.s ∧ h.cut = false :=
+  ⟨hrun_erase hx, (hinv_run hx).noCut⟩
+
+example : ∃ h, hrun exCfg exLegs .leave exSteps = some h ∧ run exCfg exSteps = some h.s ∧
+    h.s.up.delivered = [1, 2, 3, 4] ∧ h.s.down.delivered = [7, 8, 9] ∧ h.shownU = true ∧ h.shownD = true :=
+  ⟨_, rfl, rfl, by decide⟩
+
+/-- A HALF-CLOSE NEVER DISABLES THE OPPOSITE DIRECTION, WHATEVER THE LEGS CAN DO.  When the copier of `d`
+    returns while the one of the opposite direction is still running then — for every capability of both
+    legs — the tunnel stays up, both sockets stay open, nothing is cut, the opposite pipe is untouched, its
+    copier takes every read the socket offers, and it can finish in its turn once its source has -/
+theorem c03_legs_half_close_never_disables_opposite {c : Cfg} {L : Legs} {steps : List Step} {h h' : HState}
+    {d : Dir} (hx : hrun c L .leave steps = some h) (hs : hstep c L .leave h (.eof d) = some h')
+    (ho : (h.s.pipe d.other).done = false) :
+    h'.s.phase = .tunnel ∧ h'.s.closedC = false ∧ h'.s.closedT = false ∧ h'.s.expired = false ∧ h'.cut = false ∧
+      h'.s.pipe d.other = h.s.pipe d.other ∧ h'.shown d.other = h.shown d.other ∧
+      (∀ n, 1 ≤ n → n ≤ c.copyMax → n ≤ (h'.s.pipe d.other).avail →
+        (hstep c L .leave h' (.copy d.other n)).isSome = true) ∧
+      ((h'.s.pipe d.other).fin = true → (h'.s.pipe d.other).avail = 0 →
+        (hstep c L .leave h' (.eof d.other)).isSome = true) := by
+  have hx' := hrun_snoc hx hs
+  obtain ⟨hr', hcut⟩ := c03_legs_run_is_plain_run hx'
+  obtain ⟨s', hst, hms, _, _, heq⟩ := hstep_leave_cases hs
+  have pre := step_eof_pre hst
+  have hoth : h'.s.pipe d.other = h.s.pipe d.other := by rw [hms]; exact pre.2.2.2.2.1
+  have hd' : (h'.s.pipe d).done = true := by rw [hms]; exact (step_eof_spec hst).1
+  have ho' : (h'.s.pipe d.other).done = false := by rw [hoth]; exact ho
+  have fl := c03_half_close_other_direction_flows hr' hd' ho'
+  have hnc : s'.phase ≠ .closed := by
+    rw [← hms, fl.1]; decide
+  have hsh : h'.shown d.other = h.shown d.other := by
+    rcases heq d rfl with ⟨hc, _⟩ | ⟨_, _, _, e⟩ | ⟨_, _, eu, ed⟩
+    · exact absurd hc hnc
+    · exact e
+    · cases d <;> assumption
+  refine ⟨fl.1, fl.2.1, fl.2.2.1, fl.2.2.2.1, hcut, hoth, hsh, ?_, ?_⟩
+  · intro n h1 h2 h3
+    rw [hstep_isSome, fl.2.2.2.2 n h1 h2 h3]
+    rfl
+  · intro hf ha
+    rw [hstep_isSome]
+    simp only [step]
+    rw [if_pos ⟨fl.1, ho', hf, ha⟩]
+    split <;> rfl
+
+/-- the client half-closes towards a target leg WITHOUT `CloseWrite`: the target is shown nothing, and the
+    target → client direction goes on -/
+example : ∃ h h', hrun exCfg exLegs .leave (exSteps.take 11) = some h ∧
+    hstep exCfg exLegs .leave h (.eof .up) = some h' ∧ h.s.down.done = false ∧ h'.shownU = false ∧
+    h'.s.phase = .tunnel ∧ (hrunFrom exCfg exLegs .leave h' (exSteps.drop 12)).isSome = true :=
+  ⟨_, _, rfl, rfl, by decide, by decide, by decide, by decide⟩
+
+/-- the endpoint's own half-close (`fin d`) is not even seen by the opposite direction -/
+theorem c03_legs_endpoint_half_close_leaves_opposite {c : Cfg} {L : Legs} {pol : CwPolicy} {h h' : HState}
+    {d : Dir} (hs : hstep c L pol h (.fin d) = some h') :
+    h'.s.pipe d.other = h.s.pipe d.other ∧ h'.s.phase = h.s.phase ∧ h'.shownU = h.shownU ∧
+      h'.shownD = h.shownD ∧ h'.cut = h.cut := by
+  rw [hstep_not_eof (by intro d' e; exact absurd e (by simp))] at hs
+  cases hst : step c h.s (.fin d) with
+  | none => rw [hst] at hs; exact absurd hs (by simp)
+  | some s' =>
+    rw [hst] at hs
+    have := some_inj hs; subst this
+    refine ⟨c03_half_close_leaves_other_direction (Or.inr hst), ?_, rfl, rfl, rfl⟩
+    simp only [step] at hst
+    split at hst
+    · exact absurd hst (by simp)
+    · have := some_inj hst; subst this; exact setPipe_phase _ _ _
+
+example : ∃ h h', hrun exCfg exLegs .leave (exSteps.take 9) = some h ∧
+    hstep exCfg exLegs .leave h (.fin .up) = some h' ∧ h'.s.down = h.s.down := ⟨_, _, rfl, rfl, by decide⟩
+
+/-- whoever is shown end-of-stream — by `CloseWrite` or by the close that ends the tunnel — has received
+    every byte its peer wrote, and the peer had finished: for every capability of the legs -/
+theorem c03_legs_shown_after_last_byte {c : Cfg} {L : Legs} {steps : List Step} {h : HState} {d : Dir}
+    (hx : hrun c L .leave steps = some h) (hc : c.replyExact) (hsd : h.shown d = true) :
+    (h.s.pipe d).fin = true ∧ (h.s.pipe d).delivered = stream c h.s d :=
+  c03_eof_after_last_byte (hrun_erase hx) hc ((hinv_run hx).shownEof d hsd)
+
+example : ∃ h, hrun exCfg exLegs .leave exSteps = some h ∧ h.shownU = true ∧
+    h.s.up.delivered = stream exCfg h.s .up := ⟨_, rfl, by decide⟩
+
+/-- a leg WITH `CloseWrite` (found on the value, by reflection, or a `*io.PipeWriter`): its far end is shown
+    end-of-stream by the very step in which the copier returns, after the last byte -/
+theorem c03_legs_capable_leg_shows_eof_at_once {c : Cfg} {L : Legs} {steps : List Step} {h h' : HState}
+    {d : Dir} (hx : hrun c L .leave steps = some h) (hc : c.replyExact) (hcap : L.dst d = .halfClose)
+    (hs : hstep c L .leave h (.eof d) = some h') :
+    h'.shown d = true ∧ (h'.s.pipe d).fin = true ∧ (h'.s.pipe d).delivered = stream c h'.s d := by
+  have hx' := hrun_snoc hx hs
+  have hi' := hinv_run hx'
+  obtain ⟨s', hst, hms, _⟩ := hstep_leave_cases hs
+  have he : (h'.s.pipe d).eof = true := by rw [hms]; exact (step_eof_spec hst).2
+  have hsd := hi'.eofShown d hcap he
+  exact ⟨hsd, c03_legs_shown_after_last_byte hx' hc hsd⟩
+
+example : ∃ h h', hrun exCfg {} .leave (exSteps.take 11) = some h ∧
+    hstep exCfg {} .leave h (.eof .up) = some h' ∧ h'.shownU = true ∧ h'.s.phase = .tunnel :=
+  ⟨_, _, rfl, rfl, by decide⟩
+
+/-- a leg WITHOUT `CloseWrite`: its far end is shown end-of-stream only by the close that ends the tunnel —
+    never while the opposite direction is flowing — and is shown it then: when both directions have
+    finished everybody has seen end-of-stream and both sockets are closed -/
+theorem c03_legs_incapable_leg_shown_only_at_close {c : Cfg} {L : Legs} {steps : List Step} {h : HState}
+    {d : Dir} (hx : hrun c L .leave steps = some h) (hcap : L.dst d = .none) :
+    (h.shown d = true → h.s.phase = .closed ∧ h.s.closedC = true ∧ h.s.closedT = true ∧
+        (h.s.pipe d.other).done = true) ∧
+      (h.s.up.eof = true → h.s.down.eof = true → h.shownU = true ∧ h.shownD = true) := by
+  have hi := hinv_run hx
+  constructor
+  · intro hsd
+    have hc := hi.noneClosed d hcap hsd
+    have hdn := hi.inv.closedIff.mp hc
+    exact ⟨hc, hi.inv.closedC.mpr hc, hi.inv.closedT.mpr hc, by cases d <;> simp [hdn.1, hdn.2]⟩
+  · intro hu hd
+    have hb := c03_both_finished_closed (hrun_erase hx) hu hd
+    exact hi.closedShown (hi.inv.closedC.mp hb.1) hb.2.2
+
+example : ∃ h, hrun exCfg exLegs .leave (exSteps.take 15) = some h ∧ h.s.up.eof = true ∧ h.shownU = false ∧
+    h.s.phase = .tunnel ∧ h.s.down.delivered = [7, 8, 9] := ⟨_, rfl, by decide⟩
+
+/-- every state in which, within the grace period, the proxy has nothing left to do is accepted by
+    `acceptL` (the acceptor of the driver's `holds` when it is told the legs' capabilities) -/
+theorem c03_legs_settled_accepted {c : Cfg} {L : Legs} {steps : List Step} {h : HState}
+    (hx : hrun c L .leave steps = some h) (hc : c.replyExact) (hp : h.s.phase = .tunnel ∨ h.s.phase = .closed)
+    (he : h.s.expired = false)
+    (hs : ∀ d, (h.s.pipe d).avail = 0 ∧ ((h.s.pipe d).fin = true → (h.s.pipe d).eof = true)) :
+    acceptL L (hobserve c h) = true := by
+  have hr := hrun_erase hx
+  have hi := hinv_run hx
+  have hacc := c03_accept_spec (c03_settled_accepted hr hc hp he hs)
+  simp only [observe, observeDir, pipe_up, pipe_down] at hacc
+  obtain ⟨⟨pu, gu, eu⟩, ⟨pd, gd, ed⟩, cC, cT⟩ := hacc
+  -- the tunnel is closed iff both sources have finished
+  have hcl : h.s.phase = .closed ↔ (h.s.up.fin = true ∧ h.s.down.fin = true) := by
+    rw [← hi.inv.closedC]; exact cC
+  have shown_of : ∀ d, h.shown d = (match L.dst d with
+      | .halfClose => (h.s.pipe d).fin
+      | .none => (h.s.up.fin && h.s.down.fin)) := by
+    intro d
+    cases hcap : L.dst d with
+    | halfClose =>
+      simp only
+      have e : (h.s.pipe d).eof = (h.s.pipe d).fin := by cases d <;> assumption
+      rw [← e]
+      cases hh : (h.s.pipe d).eof
+      · cases hsd : h.shown d
+        · rfl
+        · have := hi.shownEof d hsd; rw [hh] at this; exact absurd this (by decide)
+      · exact hi.eofShown d hcap hh
+    | none =>
+      simp only
+      cases hsd : h.shown d
+      · cases hb : (h.s.up.fin && h.s.down.fin)
+        · rfl
+        · simp only [Bool.and_eq_true] at hb
+          have hc' := hcl.mpr hb
+          have := hi.closedShown hc' he
+          cases d <;> simp_all
+      · have hc' := hi.noneClosed d hcap hsd
+        have := hcl.mp hc'
+        simp [this.1, this.2]
+  have su := shown_of .up
+  have sd := shown_of .down
+  simp only [shown_up, shown_down, pipe_up, pipe_down] at su sd
+  have cC' : h.s.closedC = (h.s.up.fin && h.s.down.fin) := by
+    cases h1 : h.s.closedC <;> cases h2 : h.s.up.fin <;> cases h3 : h.s.down.fin <;> simp_all
+  have cT' : h.s.closedT = (h.s.up.fin && h.s.down.fin) := by
+    cases h1 : h.s.closedT <;> cases h2 : h.s.up.fin <;> cases h3 : h.s.down.fin <;> simp_all
+  simp only [acceptL, hobserve, observeDir, DirObs.okCap, pipe_up, pipe_down, pu, pd, gu, gd, su, sd, cC', cT',
+    beq_self_eq_true, Bool.and_true, Bool.true_and]
+  cases L.dst .up <;> cases L.dst .down <;> simp
+
+example : ∃ h, hrun exCfg exLegs .leave exSteps = some h ∧ acceptL exLegs (hobserve exCfg h) = true :=
+  ⟨_, rfl, by decide⟩
+
+/-- the client has finished, the target (whose leg has no `CloseWrite`) has not: accepted with the target
+    not yet shown end-of-stream, rejected were it shown -/
+example : acceptL exLegs ⟨⟨4, 4, true, true, false⟩, ⟨3, 3, true, false, false⟩, false, false⟩ = true ∧
+    acceptL exLegs ⟨⟨4, 4, true, true, true⟩, ⟨3, 3, true, false, false⟩, false, false⟩ = false := by decide
+
+/-- THE VARIANT THE CODE MUST NOT BECOME — `Close` standing in for the missing `CloseWrite`.  Same legs,
+    same schedule up to the client's half-close: the close of the target leg cuts the target → client
+    stream (the client is shown end-of-stream although the target has not finished, `9` is never
+    delivered and no step can deliver it), where the code's policy delivers everything -/
+theorem c03_legs_close_instead_of_closewrite_witness :
+    ∃ (c : Cfg) (L : Legs) (steps : List Step) (h : HState), L.dst .up = .none ∧
+      hrun c L .closeInstead (steps ++ [.targetWrite [9]]) = some h ∧ h.cut = true ∧ h.s.phase = .closed ∧
+      h.shownD = true ∧ h.s.down.fin = false ∧ stream c h.s .down = [7, 8, 9] ∧ h.s.down.delivered = [7, 8] ∧
+      hstep c L .closeInstead h (.copy .down 1) = none ∧
+      ∃ h₂, hrun c L .leave (steps ++ [.targetWrite [9], .copy .down 1, .fin .down, .eof .down]) = some h₂ ∧
+        h₂.cut = false ∧ h₂.s.down.delivered = [7, 8, 9] ∧ acceptL L (hobserve c h₂) = true :=
+  ⟨exCfg, exLegs, exSteps.take 12, _, rfl, rfl, by decide, by decide, by decide, by decide, by decide, by decide,
+    by decide, _, rfl, by decide, by decide, by decide⟩
+
+/-! ## K. Request and dial limits never touch an established tunnel
+
+  `Model/C03.lean` `Limits` / `lstep`: the timed machine of section I with the limits of the phases BEFORE
+  the tunnel (reading the request, reaching the far end, writing the reply) on the same clock.  Policy
+  `cleared` is the code: every limit ends with its phase. -/
+
+/-- every limit 5 units -/
+def exLim : Limits := { read := some 5, dial := some 5, write := some 5 }
+
+/-- request at 0, far end reached and tunnel up at 2, then silence until 22, then more bytes -/
+def exLSteps : List LStep :=
+  [.t (.act (.clientWrite [72, 72, 1, 2, 3])), .t (.act (.readHead 2)), .t (.tick 2),
+   .t (.act (.targetWrite [82, 82, 7, 8])), .t (.act (.replyRead 1)), .t (.act (.replyRead 1)),
+   .t (.act .connected), .t (.act .drain), .t (.act (.copy .down 2)), .t (.tick 20),
+   .t (.act (.targetWrite [9])), .t (.act (.copy .down 1))]
+
+/-- under the code's policy a limit never alters the state of the timed machine: with the expiries erased
+    a run with limits is a run of the timed machine (so sections A–I hold of it), and nothing is cut -/
+theorem c03_limits_run_is_timed_run {c : Cfg} {τ : Timing} {lim : Limits} {steps : List LStep} {l : LState}
+    (hx : lrun c τ lim .cleared steps = some l) : trun c τ (lerase steps) = some l.t ∧ l.cutByLimit = false :=
+  ⟨lrunFrom_erase (linv_init c τ) hx, (linv_run hx).noCut⟩
+
+example : ∃ l, lrun exCfg exT exLim .cleared exLSteps = some l ∧ l.t.now = 22 ∧ l.t.s.phase = .tunnel ∧
+    l.t.s.down.delivered = [7, 8, 9] ∧ l.deadline = none := ⟨_, rfl, by decide⟩
+
+/-- before the tunnel the limits do bind: 5 units after the first byte of a request whose head is not
+    complete time cannot pass, and the expiry abandons the request -/
+example : ∃ l l', lrun exCfg exT exLim .cleared [.t (.act (.clientWrite [72])), .t (.tick 5)] = some l ∧
+    l.deadline = some 5 ∧ lstep exCfg exT exLim .cleared l (.t (.tick 1)) = none ∧
+    lstep exCfg exT exLim .cleared l .limitExpire = some l' ∧ l'.aborted = true ∧
+    lstep exCfg exT exLim .cleared l' (.t (.act (.clientWrite [72]))) = none := ⟨_, _, rfl, by decide, by decide, rfl, by decide, by decide⟩
+
+/-- NO LIMIT IS ARMED ON AN ESTABLISHED TUNNEL: whatever the limits are, once the machine is in phase
+    `tunnel` (or beyond) no deadline is pending, the request was not abandoned, and no limit can expire -/
+theorem c03_limits_none_armed_on_established_tunnel {c : Cfg} {τ : Timing} {lim : Limits} {steps : List LStep}
+    {l : LState} (hx : lrun c τ lim .cleared steps = some l) (he : l.t.s.phase.established = true) :
+    l.deadline = none ∧ l.aborted = false ∧ l.cutByLimit = false ∧
+      lstep c τ lim .cleared l .limitExpire = none := by
+  have hi := linv_run hx
+  have hdl := hi.clear he
+  have hab : l.aborted = false := by
+    cases ha : l.aborted
+    · rfl
+    · have := hi.abortedPre ha; rw [he] at this; exact absurd this (by decide)
+  refine ⟨hdl, hab, hi.noCut, ?_⟩
+  simp only [lstep, hdl]
+  split <;> rfl
+
+/-- NO STEP OF AN ESTABLISHED TUNNEL IS ENABLED OR DISABLED BY A LIMIT: every step of the machine with
+    limits — time passing included — is enabled exactly when the step of the timed machine is, and leads
+    to the same state, whatever the limits are -/
+theorem c03_limits_do_not_touch_established_tunnel {c : Cfg} {τ : Timing} {lim : Limits} {steps : List LStep}
+    {l : LState} (hx : lrun c τ lim .cleared steps = some l) (he : l.t.s.phase.established = true)
+    (st : TStep) :
+    lstep c τ lim .cleared l (.t st) = (tstep c τ l.t st).map (fun t' => { l with t := t' }) :=
+  lstep_established_eq (linv_run hx) he st
+
+example : ∃ l, lrun exCfg exT exLim .cleared (exLSteps.take 9) = some l ∧ l.t.s.phase.established = true ∧
+    (lstep exCfg exT exLim .cleared l (.t (.tick 1000000))).isSome = true := ⟨_, rfl, by decide, by decide⟩
+
+/-- … and so for whole schedules: two proxies with different limits whose tunnels are in the same state
+    behave identically from then on — both exactly as the timed machine without limits does -/
+theorem c03_limits_irrelevant_after_establishment {c : Cfg} {τ : Timing} {lim lim' : Limits}
+    {steps steps' : List LStep} {l l' : LState} (hx : lrun c τ lim .cleared steps = some l)
+    (hx' : lrun c τ lim' .cleared steps' = some l') (he : l.t.s.phase.established = true) (ht : l'.t = l.t)
+    (more : List TStep) :
+    (lrunFrom c τ lim .cleared l (more.map LStep.t)).map LState.t = trunFrom c τ l.t more ∧
+      (lrunFrom c τ lim' .cleared l' (more.map LStep.t)).map LState.t = trunFrom c τ l.t more := by
+  refine ⟨lrunFrom_established (linv_run hx) he more, ?_⟩
+  rw [← ht]
+  exact lrunFrom_established (linv_run hx') (by rw [ht]; exact he) more
+
+example : ∃ l l', lrun exCfg exT exLim .cleared (exLSteps.take 9) = some l ∧
+    lrun exCfg exT {} .cleared (exLSteps.take 9) = some l' ∧ l'.t = l.t ∧ l.t.s.phase.established = true :=
+  ⟨_, _, rfl, rfl, by decide, by decide⟩
+
+/-- ONLY THE GRACE TIMER READS THE CLOCK: on an established tunnel time passes unless the grace timer of
+    section I forbids it; while neither direction has finished it passes freely — idle or busy, for any
+    length of time, under any limits -/
+theorem c03_limits_only_grace_timer_reads_the_clock {c : Cfg} {τ : Timing} {lim : Limits} {steps : List LStep}
+    {l : LState} (hx : lrun c τ lim .cleared steps = some l) (he : l.t.s.phase.established = true) (n : Nat) :
+    ((lstep c τ lim .cleared l (.t (.tick n))).isSome = true ↔ l.t.blocked τ n = false) ∧
+      (l.t.s.up.eof = false → l.t.s.down.eof = false →
+        lstep c τ lim .cleared l (.t (.tick n)) = some { l with t := { l.t with now := l.t.now + n } }) := by
+  have heq := c03_limits_do_not_touch_established_tunnel hx he (.tick n)
+  constructor
+  · rw [heq]
+    simp only [tstep]
+    cases hb : l.t.blocked τ n <;> simp
+  · intro hu hd
+    have ht := (c03_limits_run_is_timed_run hx).1
+    rw [heq, (c03_timer_not_started_before_first_finish ht hu hd).2.2.2.2.2.2 n]
+    rfl
+
+/-- THE VARIANT THE CODE MUST NOT BECOME — the deadline of the dial put on the connection and never
+    cleared.  Same limits, same schedule: under the code's policy the idle tunnel lives on and delivers
+    what comes later; with the inherited deadline time cannot pass beyond instant 5, the expiry is a step of
+    an ESTABLISHED tunnel, and it shows the client end-of-stream although the target never finished -/
+theorem c03_limits_inherited_deadline_witness :
+    ∃ (c : Cfg) (τ : Timing) (lim : Limits) (steps : List LStep) (l l' : LState),
+      lrun c τ lim .inherited steps = some l ∧ l.t.s.phase = .tunnel ∧ l.t.now = 2 ∧ l.deadline = some 5 ∧
+      lstep c τ lim .inherited l (.t (.tick 20)) = none ∧
+      lrunFrom c τ lim .inherited l [.t (.tick 3), .limitExpire] = some l' ∧ l'.cutByLimit = true ∧
+      l'.t.s.down.eof = true ∧ l'.t.s.down.fin = false ∧ l'.t.s.closedC = true ∧
+      lstep c τ lim .inherited l' (.t (.act (.targetWrite [9]))) = none ∧
+      ∃ l₂, lrun c τ lim .cleared (steps ++ [.t (.tick 20), .t (.act (.targetWrite [9])), .t (.act (.copy .down 1))]) =
+          some l₂ ∧ l₂.cutByLimit = false ∧ l₂.t.s.down.delivered = [7, 8, 9] ∧ l₂.t.s.down.eof = false :=
+  ⟨exCfg, exT, exLim, exLSteps.take 9, _, _, rfl, by decide, by decide, by decide, by decide, rfl, by decide,
+    by decide, by decide, by decide, by decide, _, rfl, by decide, by decide, by decide⟩
 
 end C03
 end FwdVerif
